@@ -106,6 +106,7 @@ class History:
         self.strays = [set() for _ in range(nproj)]
         self.planted = [dict() for _ in range(nproj)]  # id-named non-job directories (C04 destinations)
         self.idfiles = [set() for _ in range(nproj)]  # regular FILES named exactly like a job id
+        self.ever = [dict() for _ in range(nproj)]  # every id the project ever held -> its state point
         self.mms = []
         self.cl = set()
         self.nontrivial = False
@@ -158,6 +159,9 @@ class History:
         if fn is None:
             return
         fn(op)
+        for p, m in enumerate(self.model):
+            for jid, e in m.items():
+                self.ever[p].setdefault(jid, json.loads(json.dumps(e["sp"])))
 
     # handle creation
     def op_new_sp(self, op):
@@ -198,6 +202,31 @@ class History:
             self.mm("open_by_id", f"opening existing job {jid} ({how}) raised {type(e).__name__}: {e}")
             return
         self.new_handle(job, p, self.model[p][jid]["sp"], kind=how)
+
+    def op_new_gone_id(self, op):
+        """open_job(id=...) for an id the project held earlier (job removed, or the old id of a re-keyed / moved
+        job). The Project object may still know the state point (its cache is a superset): then the handle is as
+        good as one opened by state point -- using it re-creates the job; otherwise KeyError / LookupError."""
+        p = op.get("p", 0) % len(self.projects)
+        gone = sorted(j for j in self.ever[p] if j not in self.model[p] and j not in self.idfiles[p] and j not in self.planted[p])
+        if not gone:
+            return
+        jid = gone[op.get("k", 0) % len(gone)]
+        if os.path.lexists(self.jobdir(p, jid)):
+            return
+        try:
+            job = self.projects[p].open_job(id=jid)
+        except (KeyError, LookupError):
+            self.cl.add("gone_id_unknown")
+            return
+        except Exception as e:
+            self.mm("open_by_id", f"open_job(id=) of the former id {jid} raised {type(e).__name__}: {e}")
+            return
+        if job.id != jid:
+            self.mm("open_by_id", f"open_job(id={jid}) returned a handle with id {job.id}")
+            return
+        self.new_handle(job, p, self.ever[p][jid], kind="sp")
+        self.cl.add("gone_id_reopened")
 
     def op_copy(self, op):
         h = self.pick_handle(op)
@@ -441,6 +470,32 @@ class History:
             return
         # reset() keeps existing values that compare equal (1 vs 1.0): documents are compared with ==
         self.ensure_model_job(h)["doc"] = json.loads(json.dumps(op["m"]))
+
+    def op_doc_assign_view(self, op):
+        """job.document = <live document of another handle> (of the same job, or of another job): the
+        document becomes a copy of what the source shows; assigning a job's own document changes nothing."""
+        h = self.usable(op)
+        live = [g for g in self.live() if not g["stale"] and not g.get("broken") and oracle.job_id(g["sp"]) not in self.idfiles[g["p"]]]
+        if h is None or not live:
+            return
+        g = live[op.get("g", 0) % len(live)]
+        src_id, dst_id = oracle.job_id(g["sp"]), oracle.job_id(h["sp"])
+        if src_id not in self.model[g["p"]]:
+            return  # reading the source would initialise it: keep this op about assignment only
+        want = json.loads(json.dumps(self.model[g["p"]][src_id]["doc"]))
+        same = (g["p"], src_id) == (h["p"], dst_id)
+        if not same and self._doc_quirk(h, want):
+            return
+        try:
+            if op.get("alias"):
+                h["job"].doc = g["job"].doc
+            else:
+                h["job"].document = g["job"].document
+        except Exception as e:
+            self.mm("doc_raises", f"job.document = <document of a handle[{g['kind']}] on {'the same' if same else 'another'} job> raised {type(e).__name__}: {e}")
+            return
+        self.ensure_model_job(h)["doc"] = want
+        self.cl.add("doc_assigned_live_view_same_job" if same else "doc_assigned_live_view_other_job")
 
     def op_write(self, op):
         h = self.usable(op)
@@ -886,7 +941,9 @@ class History:
         h["p"] = q
         self.groups += 1
         h["group"] = self.groups  # copies stay behind (they cannot follow across projects)
-        self._post_edit_handle_check(h, expect_sp=h["sp"], detail={"route": "move"})
+        if not op.get("lazy"):
+            # ("lazy": the moved handle is not looked at here, so that what follows meets it as move() left it)
+            self._post_edit_handle_check(h, expect_sp=h["sp"], detail={"route": "move"})
         if h["job"].project.path != self.projects[q].path:
             self.mm("handle_follow", f"moved handle reports project {h['job'].project.path}")
 
